@@ -157,6 +157,16 @@ class Module:
             ref_all = (load_anchors().get('__all__') or {}).get(self.rel)
             if ref_all is not None:
                 self.inlined = inline_new_helpers(self, set(ref_all))
+            # local aliases of self attributes that the confirmed tree does not have are read as the attribute
+            ref_alias = (load_anchors().get('__aliases__') or {}).get(self.rel)
+            if ref_alias is not None:
+                from .normalize import unalias_self
+
+                for q_, fi_ in list(self.functions.items()):
+                    if fi_.cls is not None:
+                        k_ = unalias_self(fi_.node, keep=set(ref_alias.get(q_, ())))
+                        if k_:
+                            self.unaliased = getattr(self, 'unaliased', 0) + k_
         for node in ast.walk(self.tree):
             if isinstance(node, ast.Import):
                 for a in node.names:
